@@ -881,7 +881,9 @@ class C07(Prop):
                             "threads": spec["threads"][:2], "log_head": tr.lines[:25]})
             for (clause, detail) in viol:
                 if sum(1 for f in res.failures if f.signature == f"C07:{clause}") < 1:
-                    small = self._shrink(seed, spec, cps, clause)
+                    from harness.core import known_match
+                    # an input for a defect already listed as known needs no minimising (cost on the unchanged tree)
+                    small = spec if known_match("C07", f"C07:{clause}") is not None else self._shrink(seed, spec, cps, clause)
                     res.failures.append(Failure(f"C07:{clause}", f"seed={seed} policy={spec['policy']}: {detail}",
                                                 {"kind": "c07", **_case_of(seed, small, cps), "clause": clause}))
             if out.deadlock or out.budget or out.error is not None:
@@ -939,7 +941,7 @@ class C07(Prop):
         res = Result(rule="scenario = (contexts, publishers, receivers, pre-subscriptions, subscriber-thread op lists, publication "
                           "bursts, scheduling policy) from the seeded PRNG + a schedule derived from the scenario seed; non-trivial = at "
                           "least one delivery and one concurrent subscriber thread; distinct by (seed, scenario)")
-        n = ctx.scale(850, 8000)
+        n = ctx.scale(780, 8000)
         cases = []
         for i in range(n):
             seed = ctx.rng.randrange(1 << 30)
